@@ -234,7 +234,7 @@ func Sync(logger *log.Logger, oldVersion string, newVersion string, dryRun bool)
 	for _, v := range have {
 		l := len(haveRanges)
 		// combine contiguous ranges
-		if l > 0 && (haveRanges[l-1].SrcOffset+haveRanges[l-1].Length) == v.SrcOffset {
+		if l > 0 && (haveRanges[l-1].SrcOffset+haveRanges[l-1].Length) == v.SrcOffset && (haveRanges[l-1].DstOffset+haveRanges[l-1].Length) == v.DstOffset {
 			haveRanges[l-1].Length = haveRanges[l-1].Length + v.Length
 		} else {
 			haveRanges = append(haveRanges, v)
